@@ -25,7 +25,7 @@ def units(tier):
 
 def runner_tasks(tier):
     return [{"module": "c01", "task": "recognition", "kind": "bounded", "clause": "whole-string recognition and rejection"},
-            {"module": "stateful", "task": "C01", "name": "stateful", "kind": "bounded", "clause": "private table with customised data: formulas parsed with table=T use T's atoms and data"},
+            {"module": "stateful", "task": "C01", "name": "stateful", "kind": "bounded", "clause": "private table with customised data (masses, isotopes, densities, ion lists edited after first use): formulas parsed with table=T use T's atoms and data; every parse is a new formula"},
             {"module": "stateful", "task": "identity", "name": "atom identity", "kind": "bounded", "clause": "different atoms are unequal, distinct dictionary keys, kept apart by formulas"}]
 
 
